@@ -68,6 +68,8 @@ ALPHABETS = {
     "kw3": ["m", "a", "x", "i", "n", "e", "d", "(", ")", ",", "1"],
     # operators of eval_i64 and the bracket notations
     "ops": ["1", "<", ">", "&", "|", "%", "-", "LFLOOR", "RFLOOR", "LCEIL", "RCEIL", "DEG", "PI_SYM", "w"],
+    # superscript runs next to foreign characters (look-alikes of the superscript digits), signs and brackets
+    "sup": ["2", "SUP2", "SUP0", "OTHER", "^", "-", "(", ")"],
 }
 LEXER_INV = ["Progress", "TokenCount", "FnNeedsParen", "OnlyOffered", "LiteralForm"]
 
@@ -443,12 +445,12 @@ def c01(ctx):
     return grammar_check(ctx, {"panic", "abort", "hang"}, {"*": 4}, {"*": 6, "f64": 6}, extra_jobs=nested_agg_jobs(ctx), unopt_jobs=unopt_shape_jobs, opts=
                          [{"assignments": 2, "full_placeholders": True, "event_every": 50, "event_cap": 2000, "reject_suffixes": 2},
                           {"assignments": 1, "boundary_pool": True, "full_placeholders": True, "max_assign": 200 if q else 4000, "event_every": 500, "event_cap": 1000, "compose_assign": 6 if q else 40}],
-                         invs=[], lexer={"alphabets": ["lit", "kw1", "kw2", "kw3", "ops"], "k_quick": 3, "k_thorough": 5},
+                         invs=[], lexer={"alphabets": ["lit", "kw1", "kw2", "kw3", "ops", "sup"], "k_quick": 3, "k_thorough": 5},
                          compose={"quick": (3, 3), "thorough": (4, 4), "chains": {"quick": (4, 14, 100), "thorough": (150, 20, 110)}})
 
 def c03(ctx):
     return grammar_check(ctx, {"ok_on_reject", "err_on_defined"}, {"*": 5}, {"*": 6, "f64": 7}, {"assignments": 2, "event_every": 100, "event_cap": 2000, "nontrivial_min_ops": 1, "reject_suffixes": 2},
-                         lexer={"alphabets": ["lit", "kw1", "kw2", "kw3", "ops"], "k_quick": 3, "k_thorough": 5})
+                         lexer={"alphabets": ["lit", "kw1", "kw2", "kw3", "ops", "sup"], "k_quick": 3, "k_thorough": 5})
 
 def c04(ctx):
     # second pass: in eval_i64 (and on eval_number's Integers) two groupings of + - * differ only in whether an intermediate
@@ -474,7 +476,7 @@ def c14(ctx):
                          invs=["NoJuxAfter", "NoJuxBefore"])
 
 def c20(ctx):
-    return grammar_check(ctx, {"meta_subst"}, {"*": 4}, {"*": 5, "f64": 6},
+    return grammar_check(ctx, {"meta_subst"}, {"*": 5, "f64": 6, "num": 6}, {"*": 6, "f64": 7},
                          {"assignments": 1, "extras": ["subst"], "event_every": 200, "event_cap": 1500, "nontrivial_min_ops": 1})
 
 # the operations each statement speaks about (a tree using anything else is executed but not asserted by that check)
